@@ -21,11 +21,14 @@ def KeysIn (L : List Nat) (w : World) : Prop := ∀ a, w.js.state a ≠ none →
 structure Pres (L : List Nat) (B : Nat → Nat) (w w' : World) : Prop where
   kle : KLe w.js w'.js
   ei : KeysIn L w' → EI L B w → EI L B w'
+  /-- the backing store's accounts are never written during a transaction -/
+  dbb : w'.db.basic = w.db.basic
 
-theorem Pres.refl (L B) (w : World) : Pres L B w w := ⟨KLe.refl _, fun _ h => h⟩
+theorem Pres.refl (L B) (w : World) : Pres L B w w := ⟨KLe.refl _, fun _ h => h, rfl⟩
 
 theorem Pres.trans {L B} {w w1 w2 : World} (p1 : Pres L B w w1) (p2 : Pres L B w1 w2) : Pres L B w w2 :=
-  ⟨p1.kle.trans p2.kle, fun hK h => p2.ei hK (p1.ei (fun a ha => hK a (p2.kle a ha)) h)⟩
+  ⟨p1.kle.trans p2.kle, fun hK h => p2.ei hK (p1.ei (fun a ha => hK a (p2.kle a ha)) h),
+   p2.dbb.trans p1.dbb⟩
 
 /-- the balances only read `db.basic` -/
 theorem absB_db {db db' : Journal.Db} (h : db'.basic = db.basic) (s : Journal.JState) : absB db' s = absB db s := by
@@ -38,7 +41,7 @@ theorem absB_db {db db' : Journal.Db} (h : db'.basic = db.basic) (s : Journal.JS
 
 /-- a world that differs in nothing the ledger reads -/
 theorem Pres.of_same {L B} {w w' : World} (hdb : w'.db.basic = w.db.basic) (hjs : w'.js = w.js) : Pres L B w w' :=
-  ⟨by rw [hjs]; exact KLe.refl _, fun _ h => by unfold EI at *; rw [hjs, absB_db hdb]; exact h⟩
+  ⟨by rw [hjs]; exact KLe.refl _, fun _ h => by unfold EI at *; rw [hjs, absB_db hdb]; exact h, hdb⟩
 
 /-- one journal operation on the world's journal: C08's `step_inv` -/
 theorem Pres.of_step {L B} (hn : L.Nodup) (hB : sumOver L B < W) {w w' : World} {op : Op}
@@ -50,7 +53,7 @@ theorem Pres.of_step {L B} (hn : L.Nodup) (hB : sumOver L B < W) {w w' : World} 
   ⟨hk, fun hK h => by
     unfold EI at *
     rw [absB_db hdb]
-    exact step_inv hn hB h (fun a ha => hK a (hnamed a ha)) (hf h) hs⟩
+    exact step_inv hn hB h (fun a ha => hK a (hnamed a ha)) (hf h) hs, hdb⟩
 
 end Revm.Proofs.EvmLink
 
